@@ -25,8 +25,16 @@ from golem.core.optimisers.opt_history_objects.individual import Individual
 from golem.core.optimisers.timer import OptimisationTimer, Timer
 
 REQ = ['Evo.Evaluation']
-FN = 'fun co => match co with (c, ob) => [agree c ob; holds_b c ob] end'
+CLAUSES = ['no exception', 'sound (only input individuals, valid fitness = objective of the evaluated graph)',
+           'pre-evaluated passed through', 'no objective call on other graphs (no re-evaluation)',
+           'not evaluable => left out', 'evaluable: returned iff it reached the objective, evaluated once',
+           'generous limit cuts nobody off', 'one callback per objective call', 'expired limit: forced evaluation']
+FN = ('fun co => match co with (c, ob) => [agree c ob; holds_b c ob; negb (o_raised ob); clause_sound c ob; '
+      'clause_passthrough c ob; clause_no_reevaluation c ob; clause_left_out c ob; clause_exactly c ob; '
+      'clause_generous c ob; clause_callback ob; clause_expired c ob] end')
+NB = 2 + len(CLAUSES)
 KNOWN_SEQ_DELEGATE = 'C05-sequential-ignores-delegate'
+NOT_A_NUMBER = 987654321.0
 
 
 # ----------------------------------------------------------------------------------------
@@ -139,7 +147,10 @@ def canon_fit(f):
     """('N',) | ('S', values) | ('M', values)"""
     if not f.valid:
         return ['N', []]
-    vals = [float(v) for v in f.values]
+    # a value that is not a finite number (NaN in a "valid" fitness) is shown to Coq as a sentinel
+    # no table contains, so that the oracle flags the individual instead of the printer failing
+    vals = [float(v) if isinstance(v, (int, float)) and v == v and abs(v) != float('inf') else NOT_A_NUMBER
+            for v in f.values]
     return ['M' if isinstance(f, MultiObjFitness) else 'S', vals]
 
 
@@ -428,16 +439,17 @@ def evaluate_cases(ctx, group, triples, with_canary=False):
                 canary_at = len(cases) - 1
                 ctx.canaries += 1
                 break
-    res = ctx.coq_cases(group, REQ, FN, cases, 2, shard=60)
-    if canary_at is not None and res[canary_at] == (False, False):
+    res = ctx.coq_cases(group, REQ, FN, cases, NB, shard=60)
+    if canary_at is not None and res[canary_at][:2] == (False, False):
         ctx.canaries_caught += 1
     known = None
     seq_deleg_ignored = 0
-    for (sc, run, ob), (ag, ho) in zip(triples, res):
+    for (sc, run, ob), bits in zip(triples, res):
+        ag, ho = bits[0], bits[1]
         case = {'scenario': sc, 'run': run, 'observed': ob}
         ctx.count(group, key=case_key(sc, run), nontrivial=nontrivial(sc, ob), **classify(sc, run, ob))
         if not ho:
-            ctx.violate(group, case, describe_violation(sc, run, ob))
+            ctx.violate(group, case, describe_violation(sc, run, ob, bits[2:]))
         if not ag:
             ctx.disagree(group, case, 'model and implementation differ (returned individuals, event log or delegate calls)')
         dg = sc.get('delegate')
@@ -455,11 +467,13 @@ def evaluate_cases(ctx, group, triples, with_canary=False):
     return res
 
 
-def describe_violation(sc, run, ob):
+def describe_violation(sc, run, ob, clause_bits=()):
+    failed = [name for name, ok in zip(CLAUSES, clause_bits) if not ok]
+    head = 'evaluation of a population of %d by the %s dispatcher (n_jobs=%s)' % (
+        len(sc['pop']), 'parallel' if run['par'] else 'sequential', run.get('n_jobs'))
     if ob['raised']:
-        return 'evaluating the population raised ' + ob['raised']
-    return ('evaluation of a population of %d by the %s dispatcher broke the property: returned %s, events %d'
-            % (len(sc['pop']), 'parallel' if run['par'] else 'sequential', ob['out'], len(ob['log'])))
+        head += ' raised ' + ob['raised']
+    return '%s violates: %s; returned (uid, fitness, graph) %s' % (head, '; '.join(failed) or '?', ob['out'])
 
 
 def run(ctx):
@@ -497,7 +511,7 @@ def run(ctx):
         ctx.set_exhaustive('small-scope', True)
         evaluate_cases(ctx, 'small-scope', triples)
         triples = []
-        n_seq = ctx.budget(140, 1500)
+        n_seq = ctx.budget(300, 3000)
         for k in range(n_seq):
             n = rng.choice([0, 1, 2, 3, 4, 5, 6, 8, 10, 12]) if k % 4 else rng.randrange(13)
             force = {'dup': True} if k % 25 == 24 else None
@@ -512,7 +526,7 @@ def run(ctx):
         # ---- worker processes, completion order permuted by sleeps; every scenario is also run
         #      sequentially and the assignments uid -> fitness are compared
         cross, triples = [], []
-        for nj, count in ((2, ctx.budget(12, 120)), (4, ctx.budget(9, 100))):
+        for nj, count in ((2, ctx.budget(20, 200)), (4, ctx.budget(14, 160))):
             for k in range(count):
                 n = rng.choice([2, 3, 5, 8, 12])
                 tk = ['none', 'generous', 'generous_opt', 'expired', 'expired_opt'][k % 5]
@@ -543,7 +557,7 @@ def run(ctx):
             pass
 
 
-def check_cross(ctx, cross):
+def check_cross(ctx, cross, group='cross'):
     """sequential vs parallel (1 worker, n workers): which individual received which fitness"""
     def outs(ob):
         return c_list([coq_ind(u, f, g) for u, f, g in ob['out']], 'ind')
@@ -563,18 +577,18 @@ def check_cross(ctx, cross):
     a = coq_ind(0, ['S', [1.0]], 0)
     b = coq_ind(0, ['S', [2.0]], 0)
     cases.append('(%s, %s, %s)' % (c_list([a], 'ind'), c_list([a], 'ind'), c_list([b], 'ind')))
-    res = ctx.coq_cases('cross', REQ, 'fun t => match t with (a, b, s) => [same_assignment_b a b; same_assignment_b a s] end',
+    res = ctx.coq_cases(group, REQ, 'fun t => match t with (a, b, s) => [same_assignment_b a b; same_assignment_b a s] end',
                         cases, 2, shard=200)
     if res[-1] == (True, False):
         ctx.canaries_caught += 1
     for (sc, rn, ob, ob_1, ob_s, comparable), (ab, as_) in zip(meta, res[:-1]):
-        ctx.count('cross', key=case_key(sc, rn), nontrivial=nontrivial(sc, ob), n_jobs=rn['n_jobs'],
+        ctx.count(group, key=case_key(sc, rn), nontrivial=nontrivial(sc, ob), n_jobs=rn['n_jobs'],
                   compared='par(n)/par(1)/seq' if comparable else 'par(n)/par(1)', timer=sc['timer']['kind'])
         case = {'scenario': sc, 'run': rn, 'observed': ob, 'observed_one_worker': ob_1, 'observed_sequential': ob_s}
         if not ab:
-            ctx.violate('cross', case, 'parallel evaluation with %d workers and with 1 worker assign different fitness' % rn['n_jobs'])
+            ctx.violate(group, case, 'parallel evaluation with %d workers and with 1 worker assign different fitness' % rn['n_jobs'])
         if not as_:
-            ctx.violate('cross', case, 'parallel and sequential evaluation assign different fitness to the individuals')
+            ctx.violate(group, case, 'parallel and sequential evaluation assign different fitness to the individuals')
 
 
 def replay(ctx, payload):
@@ -586,6 +600,15 @@ def replay(ctx, payload):
     tmpdir = tempfile.mkdtemp(prefix='c05_')
     try:
         ob = observe(sc, rn, tmpdir)
-        evaluate_cases(ctx, 'replay', [(sc, rn, ob)])
+        triples = [(sc, rn, ob)]
+        if 'observed_sequential' in case:           # a cross-run violation: redo the three runs
+            rs, r1 = {'par': False, 'n_jobs': 1}, {'par': True, 'n_jobs': 1}
+            ob_s, ob_1 = observe(sc, rs, tmpdir), observe(sc, r1, tmpdir)
+            triples += [(sc, rs, ob_s), (sc, r1, ob_1)]
+            dg = sc.get('delegate')
+            comparable = (not sc['timer']['kind'].startswith('expired') and sc['timer']['kind'] != 'fake'
+                          and not (dg and dg['enabled']) and in_scope(sc))
+            check_cross(ctx, [(sc, rn, ob, ob_1, ob_s, comparable)], group='replay-cross')
+        evaluate_cases(ctx, 'replay', triples)
     finally:
         shutil.rmtree(tmpdir, ignore_errors=True)
